@@ -5,6 +5,7 @@ mod gen;
 mod oracle;
 mod tables;
 mod reenc;
+mod consts;
 use std::io::{BufRead, Write};
 
 /// counting allocator: bytes requested and the largest single request since the last reset (C03: no entry point may
@@ -49,6 +50,8 @@ fn main() {
             for line in stdin.lock().lines() { let line = line.unwrap(); writeln!(out, "{}", o.check(prop, &line)).unwrap(); }
         }
         "tables" => tables::emit(&mut out),
+        // the literal dictionary of the current source tree (the committed baseline is this output for the pinned tree)
+        "consts" => { write!(out, "{}", consts::baseline_text()).unwrap(); }
         _ => { eprintln!("usage: h264harness gen <stream> <n> <seed> | run | oracle <prop> | tables"); std::process::exit(2); }
     }
     out.flush().unwrap();
